@@ -118,6 +118,8 @@ def r4_local(ctx, rid='C14.R4', rid5='C14.R5'):
             present = any(x[0] == 'variant' and x[2] == 'Some' and core.contains_call(x[1], getter) for x in walk(e))
             defaulted = any(x[0] == 'call' and x[1].rsplit('::', 1)[-1] in ('unwrap_or', 'unwrap_or_default', 'unwrap_or_else') for x in walk(e))
             edges = core.guard_edges(F, rs, [getter], lambda l: l == frozenset(['Some']) or l is True)
+            from_local = any(x[0] == 'call' and x[1] == getter and x[2] and (mentions_field(x[2][0], SET, 'local') or any(y[0] == 'variant' and y[2] == 'WaitingAck' for y in walk(x[2][0]))) for x in walk(e))
+            r.check(from_local, 'delta-source|' + callee.split('::')[-1], rs.loc(bi), '%s takes its value from the acknowledged local SETTINGS (Local::WaitingAck payload)%s' % (callee.split('::')[-1], '' if from_local else ' — not from the received ACK frame, which never carries parameters'))
             ok = present and not defaulted and bool(edges) and rs.dominated_by_edges(bi, edges)
             r.check(ok, 'delta|' + callee.split('::')[-1], rs.loc(bi),
                     '%s(%s)%s' % (callee.split('::')[-1], core.show(e)[:70], ' only when the acknowledged SETTINGS carried the parameter' if ok else
@@ -192,6 +194,11 @@ def r6_pong(ctx):
             pongs = [x for x in walk(e) if x[0] == 'call' and x[1] == 'frame::ping::Ping::pong']
             ok = bool(pongs) and any(y[0] == 'call' and y[1] == 'std::option::Option::take' for y in walk(pongs[0]))
             r.check(ok, 'send', sp.loc(bi), 'buffered frame = %s' % core.show(e)[:120])
+    pl_ = r.fn('frame::ping::Ping::load')
+    if pl_:
+        masks = [1 for bi, si, pl, rv, ln in pl_.stmts() if rv[0] == 'bin' and rv[1] == 'BitAnd' and any(c[1] == 1 for c in core.consts_in(pl_.expr_of_rvalue(rv)))]
+        eqs = [1 for bi, si, pl, rv, ln in pl_.stmts() if rv[0] == 'bin' and rv[1] in ('Eq', 'Ne') and core.contains_call(pl_.expr_of_rvalue(rv), 'frame::head::Head::flag') and not any(x[0] == 'bin' and x[1] == 'BitAnd' for x in walk(pl_.expr_of_rvalue(rv)))]
+        r.check(bool(masks) and not eqs, 'load|ack-is-mask', pl_.file, 'Ping::load recognises ACK by masking bit 0 (undefined flag bits are ignored, RFC 9113 §4.1), not by comparing the whole flag octet')
     pg = r.fn('frame::ping::Ping::pong')
     if pg:
         agg = [pg.expr_of_rvalue(rv) for bi, si, pl, rv, ln in pg.stmts() if pl == [0] and rv[0] == 'aggr']
@@ -242,6 +249,9 @@ def r7_no_loss(ctx, rid='C14.R7', table=None, floor=6):
 def run(ctx):
     C08.r1_slots(ctx, 'C14.R1')
     r7_no_loss(ctx)
+    from .. import hpackrules
+    r10 = ctx.rule('C14.R10', 'TSTATE', 'SETTINGS_HEADER_TABLE_SIZE changes are scheduled for the next header block: final = last acknowledged value, minimum first (all orderings, = C10.R6)')
+    hpackrules.size_update_schedule(r10, ctx.facts)
     from . import C15
     C15.r4b_shutdown_ping(ctx, 'C14.R9')  # a PING ack answers only the PING it echoes
     C02.r5_settings_delta(ctx, 'C14.R8')
